@@ -33,7 +33,8 @@ EmptyBlock(i, bp) == [bpi |-> i, bp |-> bp, qrs |-> <<>>, mms |-> <<>>, aecs |->
     \* aecs: sequence of [key, n] in first-seen order (a bag; order is not part of the meaning)
 
 ExInit(pre, bps) == [pre |-> pre, bps |-> bps, active |-> 0,
-                     blk |-> EmptyBlock(0, IF Len(bps) > 0 THEN bps[1] ELSE <<>>), bw |-> 0, hdr |-> 0, hb |-> <<>>,
+                     blk |-> EmptyBlock(0, IF Len(bps) > 0 THEN bps[1] ELSE <<>>),
+                     xb |-> EmptyBlock(0, IF Len(bps) > 0 THEN bps[1] ELSE <<>>), bw |-> 0, hdr |-> 0, hb |-> <<>>,
                      cur |-> <<>>, closed |-> <<>>, rep |-> 0]
 
 BP(ex)    == ex.blk.bp
@@ -64,28 +65,54 @@ Earliest(b, rec, tps) ==
     THEN (IF XBug = "earliest_first_only" /\ ~(Len(b.qrs) = 0 /\ Len(b.mms) = 0) THEN b.et ELSE TsTicks(rec.ts, tps))
     ELSE b.et
 
-StepQR(ex, rec, st) ==
-    LET h   == Hints(ex)
-        b0  == [ex.blk EXCEPT !.et = Earliest(ex.blk, rec, BP(ex).tps)]
-        b1  == IF StorableQR(rec, h) THEN [b0 EXCEPT !.qrs = Append(@, FilterQR(rec, h, BP(ex).tps))] ELSE b0
-    IN FlushIfFull([ex EXCEPT !.blk = WithStats(b1, st)])
+(* CdnsBlock::add_question_response_record / add_address_event_count / add_malformed_message (generic records) *)
+(* on a block b armed with its own parameters b.bp                                                              *)
+BlkQR(b, rec, st) ==
+    LET h  == HintsOf(b.bp)
+        b0 == [b EXCEPT !.et = Earliest(b, rec, b.bp.tps)]
+        b1 == IF StorableQR(rec, h) THEN [b0 EXCEPT !.qrs = Append(@, FilterQR(rec, h, b.bp.tps))] ELSE b0
+    IN WithStats(b1, st)
 
 AddAEC(aecs, key) ==
     IF \E i \in 1..Len(aecs) : aecs[i].key = key
     THEN [i \in 1..Len(aecs) |-> IF aecs[i].key = key THEN [aecs[i] EXCEPT !.n = @ + 1] ELSE aecs[i]]
     ELSE Append(aecs, [key |-> key, n |-> 1])
 
-(* buffer_aec: ignored altogether when the address-event hint is off *)
+(* ignored altogether when the address-event / malformed-message hint is off *)
+BlkAEC(b, rec, st) == IF ~AECEnabled(HintsOf(b.bp)) THEN b ELSE WithStats([b EXCEPT !.aecs = AddAEC(@, rec)], st)
+BlkMM(b, rec, st) ==
+    IF ~MMEnabled(HintsOf(b.bp)) THEN b
+    ELSE LET b0 == [b EXCEPT !.et = Earliest(b, rec, b.bp.tps)]
+             b1 == IF DOMAIN rec # {} THEN [b0 EXCEPT !.mms = Append(@, FilterMM(rec, b.bp.tps))] ELSE b0
+         IN WithStats(b1, st)
+(* the value the add_* calls return: is the block full now?  (false at once when the hint drops the record) *)
+BlkFullAfter(b, b1, kind) ==
+    IF kind = "aec" /\ ~AECEnabled(HintsOf(b.bp)) THEN FALSE
+    ELSE IF kind = "mm" /\ ~MMEnabled(HintsOf(b.bp)) THEN FALSE
+    ELSE Full(b1, b1.bp)
+
+(* buffer_qr / buffer_aec / buffer_mm (rec, stats) -- st is NoStats or <<stats>> *)
+StepQR(ex, rec, st) == FlushIfFull([ex EXCEPT !.blk = BlkQR(ex.blk, rec, st)])
 StepAEC(ex, rec, st) ==
     IF ~AECEnabled(Hints(ex)) THEN [s |-> ex, wrote |-> FALSE]
-    ELSE FlushIfFull([ex EXCEPT !.blk = WithStats([ex.blk EXCEPT !.aecs = AddAEC(@, rec)], st)])
-
-(* buffer_mm: ignored altogether when the malformed-message hint is off *)
+    ELSE FlushIfFull([ex EXCEPT !.blk = BlkAEC(ex.blk, rec, st)])
 StepMM(ex, rec, st) ==
     IF ~MMEnabled(Hints(ex)) THEN [s |-> ex, wrote |-> FALSE]
-    ELSE LET b0 == [ex.blk EXCEPT !.et = Earliest(ex.blk, rec, BP(ex).tps)]
-             b1 == IF DOMAIN rec # {} THEN [b0 EXCEPT !.mms = Append(@, FilterMM(rec, BP(ex).tps))] ELSE b0
-         IN FlushIfFull([ex EXCEPT !.blk = WithStats(b1, st)])
+    ELSE FlushIfFull([ex EXCEPT !.blk = BlkMM(ex.blk, rec, st)])
+
+(* ---- a second block the application keeps itself (CdnsBlock used directly) and hands to write_block(block) ---- *)
+XNew(ex, i)  == [ex EXCEPT !.xb = EmptyBlock(i, ex.bps[i + 1])]
+XSet(ex, i)  == IF ItemCount(ex.xb) > 0 THEN [s |-> ex, ok |-> FALSE]
+                ELSE [s |-> [ex EXCEPT !.xb = [@ EXCEPT !.bpi = i, !.bp = ex.bps[i + 1]]], ok |-> TRUE]
+XClear(ex)   == [ex EXCEPT !.xb = EmptyBlock(ex.xb.bpi, ex.xb.bp)]
+XAdd(ex, kind, rec, st) ==
+    LET b1 == CASE kind = "qr" -> BlkQR(ex.xb, rec, st) [] kind = "aec" -> BlkAEC(ex.xb, rec, st) [] OTHER -> BlkMM(ex.xb, rec, st)
+    IN [s |-> [ex EXCEPT !.xb = b1], full |-> BlkFullAfter(ex.xb, b1, kind)]
+XWrite(ex) ==        \* write_block(block): the block is written if it holds items; it is NOT cleared
+    IF ItemCount(ex.xb) = 0 THEN [s |-> ex, wrote |-> FALSE]
+    ELSE [s |-> [ex EXCEPT !.cur = Append(@, ex.xb), !.bw = @ + 1,
+                           !.hdr = IF ex.bw = 0 THEN Len(ex.bps) ELSE @, !.hb = IF ex.bw = 0 THEN ex.bps ELSE @],
+          wrote |-> TRUE]
 
 StepWB(ex) == Flush(ex)
 
